@@ -49,6 +49,9 @@ def gen_spec(rnd):
                        'restart-all-names', 'restart-during-check'])
     h = {'watchers': ws, 'arb': {'warmup_delay': rnd.choice([0, 0, 1, 2])}, 'trigger': trig,
          'death_at': rnd.randint(1, 40) if rnd.random() < .33 else None}
+    if rnd.random() < .2:
+        # the wall clock is stepped at a kernel-call boundary of the sequence: pacing is about durations
+        h['clock'] = [rnd.randint(1, 40), rnd.choice([3600.0, 3600.0, 86400.0, 5.0, -3600.0, -5.0])]
     if rnd.random() < .25:
         # the set of watchers changes at run time before the group operation: one removed, one added (no start)
         h['swap'] = {'rm': rnd.choice([w['name'] for w in ws]),
@@ -130,6 +133,8 @@ def _run(w, h, res):
     confs = h['watchers']
     if h.get('death_at') and h['trigger'] == 'boot':
         _arm(w, h)
+    if h['trigger'] == 'boot':
+        _arm_clock(w, h, res)
     l0 = len(k.log)
     yield arb.start()
     yield w.settle(120)
@@ -160,6 +165,7 @@ def _run(w, h, res):
     if trig.startswith('start'):
         yield w.call('stop', waiting=True)
         yield w.settle(60)
+    _arm_clock(w, h, res)
     if trig == 'restart-during-check':
         yield _during_check(w, h, res)
         return
@@ -230,6 +236,19 @@ def _during_check(w, h, res):
             break
     if len(ts) >= 2:
         res.nontrivial(repr(('restart-during-check', c['numprocesses'], c['warmup_delay'], len(ts), accepted)))
+
+
+def _arm_clock(w, h, res):
+    if not h.get('clock'):
+        return
+    k = w.kernel
+    off, delta = h['clock']
+
+    def step(kern, delta=delta):
+        w.clock.wall_offset += delta
+        res.obs['wall_clock_steps_during_a_sequence'] += 1
+    prev = k.inject.get(k.calls + off)
+    k.inject[k.calls + off] = step if prev is None else (lambda kern, a=prev, b=step: (a(kern), b(kern)))
 
 
 def _arm(w, h):
